@@ -51,6 +51,12 @@ class PeakAmplitudeConstraint(BaseConstraint):
         Returns:
             torch.Tensor: Amplitude-constrained signal with the same shape as input
         """
+        if torch.is_complex(x):
+            # Complex samples: limit the magnitude and keep the phase
+            magnitude = torch.abs(x)
+            scale = torch.clamp(self.max_amplitude / (magnitude + 1e-12), max=1.0)
+            return x * scale
+
         # Simple clipping approach
         return torch.clamp(x, -self.max_amplitude, self.max_amplitude)
 
